@@ -234,7 +234,12 @@ pub fn c03_peercrypto_tick_reaches_core() {
 fn password_keys_match(n: usize) {
     let pwb: [u8; 2] = kani::any();
     kani::assume(pwb[0] < 128 && pwb[1] < 128);
-    let pw = ::std::str::from_utf8(&pwb[..n]).unwrap();
+    // longer passwords: two symbolic characters followed by a concrete filler (concrete shape, symbolic data)
+    let mut full = [b'x'; 40];
+    full[0] = pwb[0];
+    full[1] = pwb[1];
+    // all bytes are ASCII by the assumption above; the validating constructor's alignment loops do not unwind for 33 bytes
+    let pw = unsafe { ::std::str::from_utf8_unchecked(&full[..n]) };
     let (privkey, pubkey) = Crypto::generate_keypair(Some(pw));
     let node = Crypto::keypair_from_password(pw);
     let printed_pub = okf(Crypto::parse_public_key(&pubkey));
@@ -243,7 +248,7 @@ fn password_keys_match(n: usize) {
     std::mem::forget(privkey);
     std::mem::forget(pubkey);
     std::mem::forget(node);
-    vcover!(n > 0 && pwb[n - 1] == b' ', "password_with_trailing_blank");
+    vcover!(n > 0 && full[n - 1] == b' ', "password_with_trailing_blank");
     witness!();
 }
 #[cfg_attr(kani, kani::proof, kani::unwind(34), kani::stub(crate::util::to_base62, to_base62_contract), kani::stub(crate::util::from_base62, from_base62_contract))]
@@ -253,6 +258,18 @@ pub fn c18_password_keys_match_printed_keys_len1() {
 #[cfg_attr(kani, kani::proof, kani::unwind(34), kani::stub(crate::util::to_base62, to_base62_contract), kani::stub(crate::util::from_base62, from_base62_contract))]
 pub fn c18_password_keys_match_printed_keys_len2() {
     password_keys_match(2)
+}
+#[cfg_attr(kani, kani::proof, kani::unwind(42), kani::stub(crate::util::to_base62, to_base62_contract), kani::stub(crate::util::from_base62, from_base62_contract))]
+pub fn c18_password_keys_match_printed_keys_len32() {
+    password_keys_match(32)
+}
+#[cfg_attr(kani, kani::proof, kani::unwind(42), kani::stub(crate::util::to_base62, to_base62_contract), kani::stub(crate::util::from_base62, from_base62_contract))]
+pub fn c18_password_keys_match_printed_keys_len33() {
+    password_keys_match(33)
+}
+#[cfg_attr(kani, kani::proof, kani::unwind(42), kani::stub(crate::util::to_base62, to_base62_contract), kani::stub(crate::util::from_base62, from_base62_contract))]
+pub fn c18_password_keys_match_printed_keys_len40() {
+    password_keys_match(40)
 }
 #[cfg_attr(kani, kani::proof, kani::unwind(34), kani::stub(crate::util::to_base62, to_base62_contract), kani::stub(crate::util::from_base62, from_base62_contract))]
 pub fn c18_password_keys_match_printed_keys_empty() {
